@@ -204,6 +204,16 @@ u_table(uint64_t idx, void *arg)
     one_iter(0, REGISTER_ADDRESS_MAX, -1, 0);
     one_iter(0, REGISTER_ADDRESS_MAX, 0, -1);
     one_iter(lo, REGISTER_ADDRESS_MAX - lo, -1, 0);
+    /* ranges that end exactly at the top of the address space (they do not wrap) */
+    if (lo > 0) {
+        one_iter(lo, (RegisterOffset)(0u - lo), -1, 0);
+        one_iter(lo, (RegisterOffset)(0u - lo), 0, -2);
+        one_iter(1, REGISTER_OFFSET_MAX, -1, 0);
+        uint32_t mid = d.nregs ? d.reg[d.nregs / 2].addr : lo;
+        if (mid > 0)
+            one_iter(mid, (RegisterOffset)(0u - mid), -1, 0);
+        VH_COUNT("iteration: range ending exactly at 2^32");
+    }
     VH_COUNT("iteration: whole-table idiom foreach(0, ADDRESS_MAX)");
     vh_sig(0x03000000ull ^ idx);
     if (idx < 2)
@@ -224,7 +234,8 @@ harness_run(void)
                                  "iteration: range starts in a gap, hole or empty area",
                                  "iteration: stopped by a negative callback result",
                                  "iteration: stopped by a positive callback result",
-                                 "iteration: whole-table idiom foreach(0, ADDRESS_MAX)", "uninitialised table probed" };
+                                 "iteration: whole-table idiom foreach(0, ADDRESS_MAX)", "uninitialised table probed",
+                                 "iteration: range ending exactly at 2^32" };
     for (size_t i = 0; i < sizeof req / sizeof req[0]; i++)
         vh_require(req[i]);
 }
